@@ -68,6 +68,9 @@ pub enum Op {
     IterForEach(u8),
     /// wrap_iter(..).with_position(p) on the bar as it stands: the position is p from then on, then the items count
     IterWithPosition(u64, u8),
+    /// the tokio writer adaptor: poll_write of `.0` bytes, then poll_write_vectored of two slices of `.1` and
+    /// `.2` bytes into a Vec (which takes everything): as many incs as bytes written
+    AsyncWriteVectored(u8, u8, u8),
 }
 
 #[derive(Debug, Clone, Serialize, Deserialize)]
@@ -114,6 +117,7 @@ fn op_strategy() -> BoxedStrategy<Op> {
         1 => (0u8..20, 0u8..40).prop_map(|(a, b)| Op::ReadToString(a, b)),
         1 => (0u8..20, 0u8..40).prop_map(|(a, b)| Op::AsyncReadPrefilled(a, b)),
         1 => (0u8..30, 0u8..30).prop_map(|(a, b)| Op::WriteAllFailing(a, b)),
+        1 => (0u8..20, 0u8..20, 0u8..20).prop_map(|(a, b, c)| Op::AsyncWriteVectored(a, b, c)),
         1 => (0u8..9, 0u8..4).prop_map(|(items, k)| Op::IterNth { items, k }),
         1 => (0u8..6).prop_map(Op::IterForEach),
         1 => (special_u64(), 0u8..6).prop_map(|(p, n)| Op::IterWithPosition(p, n)),
@@ -130,6 +134,11 @@ fn finish_of(k: u8) -> ProgressFinish {
         3 => ProgressFinish::Abandon,
         _ => ProgressFinish::AbandonWithMessage("a".into()),
     }
+}
+
+thread_local! {
+    /// bytes the last AsyncWriteVectored op reported as written (read by the model step right after it)
+    static ASYNC_VECTORED_WRITTEN: std::cell::Cell<u64> = const { std::cell::Cell::new(0) };
 }
 
 fn run_hist(c: &HistCase) -> CaseResult {
@@ -213,6 +222,24 @@ fn run_hist(c: &HistCase) -> CaseResult {
                 assert!(matches!(r, std::task::Poll::Ready(Ok(()))));
                 assert_eq!(buf.filled().len(), *have as usize + *n as usize);
             }
+            Op::AsyncWriteVectored(a, b, c2) => {
+                use tokio::io::AsyncWrite;
+                let mut wr = pb.wrap_async_write(Vec::<u8>::new());
+                let mut cx = std::task::Context::from_waker(std::task::Waker::noop());
+                let first = vec![b'a'; *a as usize];
+                let r = std::pin::Pin::new(&mut wr).poll_write(&mut cx, &first);
+                assert!(matches!(r, std::task::Poll::Ready(Ok(n)) if n == *a as usize));
+                let (x, y) = (vec![b'b'; *b as usize], vec![b'c'; *c2 as usize]);
+                let slices = [std::io::IoSlice::new(&x), std::io::IoSlice::new(&y)];
+                let r = std::pin::Pin::new(&mut wr).poll_write_vectored(&mut cx, &slices);
+                // (a Vec takes all slices when it is asked to write vectored; through the default
+                // implementation only the first non-empty one - either way the returned count is what counts)
+                let written = match r {
+                    std::task::Poll::Ready(Ok(n)) => n,
+                    other => panic!("poll_write_vectored into a Vec returned {other:?}"),
+                };
+                ASYNC_VECTORED_WRITTEN.with(|w| w.set(*a as u64 + written as u64));
+            }
             Op::WriteAllFailing(n, accept) => {
                 use std::io::Write;
                 struct Sink(usize, usize);
@@ -276,6 +303,7 @@ fn run_hist(c: &HistCase) -> CaseResult {
             Op::SeekCurrentZero(k) => pos = *k as u64,
             Op::ReadToString(_, n) | Op::AsyncReadPrefilled(_, n) => pos = pos.wrapping_add(*n as u64),
             Op::WriteAllFailing(n, accept) => pos = pos.wrapping_add((*n).min(*accept) as u64),
+            Op::AsyncWriteVectored(..) => pos = pos.wrapping_add(ASYNC_VECTORED_WRITTEN.with(|w| w.get())),
             Op::IterNth { items, .. } | Op::IterForEach(items) | Op::IterWithPosition(_, items) => {
                 if let Op::IterWithPosition(p, _) = op {
                     pos = *p;
@@ -397,6 +425,7 @@ fn run_hist(c: &HistCase) -> CaseResult {
     v.label_if(c.ops.iter().any(|o| matches!(o, Op::WriteAllFailing(n, a) if *a > 0 && a < n)), "write_all_failed_midway");
     v.label_if(c.ops.iter().any(|o| matches!(o, Op::IterNth { items, k } if *items > 0 && (*items as u16) % (*k as u16 + 1) != 0)), "nth_ran_past_the_end");
     v.label_if(c.ops.iter().any(|o| matches!(o, Op::AsyncReadPrefilled(h, n) if *h > 0 && *n > 0)), "async_read_into_partly_filled_buffer");
+    v.label_if(c.ops.iter().any(|o| matches!(o, Op::AsyncWriteVectored(_, b, c2) if *b > 0 && *c2 > 0)), "async_vectored_write");
     Ok(v)
 }
 
@@ -658,7 +687,7 @@ pub fn property() -> Property {
                 cases: |t| t.pick(6_000, 300_000),
                 run: run_hist,
                 signature: no_signature,
-                essential: &["wrapped_u64_boundary", "reset", "finish", "len_saturating", "hidden_target", "unrelated_calls_interleaved", "read_to_string_appending", "iterator_adaptor_drained", "async_read_into_partly_filled_buffer", "write_all_failed_midway", "nth_ran_past_the_end"],
+                essential: &["wrapped_u64_boundary", "reset", "finish", "len_saturating", "hidden_target", "unrelated_calls_interleaved", "read_to_string_appending", "iterator_adaptor_drained", "async_read_into_partly_filled_buffer", "write_all_failed_midway", "nth_ran_past_the_end", "async_vectored_write"],
                 workers: w,
                 decode: Some(decode_hist),
             }),
